@@ -9,8 +9,8 @@
     * `minimize_bandwidth_above_threshold` = thresholding + SciPy `reverse_cuthill_mckee`:
       one tape entry per call, `nThr` calls per `minimize_bandwidth_global`;
     * `torch.randperm(L)`: one entry per restart.
-  A tape entry that is not a permutation of `0..n-1` ends the run with `Err.contract`
-  (outside the contract nothing is claimed); an exhausted tape with `Err.tape`.
+  A tape entry that is not a permutation of `0..n-1` ends the run with `IErr.contract`
+  (outside the contract nothing is claimed); an exhausted tape with `IErr.tape`.
 -/
 import EmuVerif.Model.Scalar
 import EmuVerif.Model.Perm
